@@ -60,6 +60,32 @@ type ScenarioB struct {
 	// ChainTimes > 1: the chain is Chain repeated that many times (a long chain from a short description):
 	// a node that was cut off or joins late finds a P2P store head far above its own height in one jump.
 	ChainTimes int `json:"chain_times,omitempty"`
+	// FetchFaults: scripted outcomes of the first examinations of a DA height (transient read faults of
+	// the DA layer: list/get errors in several flavours incl. expired deadlines); the height reads normally
+	// once its script is used up.
+	FetchFaults []FetchFault `json:"fetch_faults,omitempty"`
+}
+
+// FetchFault scripts the first examinations of one DA height.
+type FetchFault struct {
+	DAHeight uint64               `json:"da_height"`
+	Outcomes []world.FetchOutcome `json:"outcomes"`
+}
+
+// GenFetchFaults draws transient DA read faults for heights 1..maxDA.
+func GenFetchFaults(t *rapid.T, maxDA uint64) []FetchFault {
+	out := []FetchFault{}
+	for n := rapid.IntRange(1, 3).Draw(t, "nff"); n > 0; n-- {
+		ff := FetchFault{DAHeight: uint64(rapid.IntRange(1, int(maxDA)).Draw(t, "ffh"))}
+		for k := rapid.IntRange(1, 3).Draw(t, "ffn"); k > 0; k-- {
+			ff.Outcomes = append(ff.Outcomes, world.FetchOutcome{
+				Kind: rapid.SampledFrom([]string{"listerr", "chunkerr"}).Draw(t, "ffkind"),
+				Err:  rapid.SampledFrom([]string{"", "deadline", "da-deadline", "timeout"}).Draw(t, "fferr"),
+			})
+		}
+		out = append(out, ff)
+	}
+	return out
 }
 
 // FullChain is the chain the scenario describes.
@@ -218,6 +244,12 @@ func runB(sc ScenarioB, dir, id string, step func(r *BRun, when string) *world.P
 			if pl.DAHeight > r.MaxDA {
 				r.MaxDA = pl.DAHeight
 			}
+		}
+		for _, ff := range sc.FetchFaults {
+			da.SetFetchScript(ff.DAHeight, ff.Outcomes)
+		}
+		if len(sc.FetchFaults) > 0 {
+			r.Labels = append(r.Labels, "da-read-faults")
 		}
 		f, err := fw.NewFull(c, root+"/f", da)
 		if err != nil {
